@@ -98,7 +98,14 @@ def impl(case):
             cd = os.path.join(d, 'convolved')
             if os.path.exists(cd):
                 shutil.rmtree(cd)
-            kw = {} if win is None else dict(wav_min=win[0] * u.micron, wav_max=win[1] * u.micron)
+            def _q(x, k):
+                # the window ends are quantities: write them in micron, nm, mm or m (a unit is used only if the value survives the round trip
+                # exactly, so that an end placed ON a tabulated wavelength stays on it)
+                un = [u.micron, u.nm, u.mm, u.m, u.micron][k % 5]
+                q = (x * u.micron).to(un)
+                return q if float(q.to(u.micron).value) == float(x) else x * u.micron
+            ri = len(res)
+            kw = {} if win is None else dict(wav_min=_q(win[0], ri), wav_max=_q(win[1], ri // 2 + 1))
             try:
                 t = convolve_model_dir_monochromatic(d, max_ram=_max_ram(chunk, nm, nap), **kw)
             except Exception as e:
